@@ -146,8 +146,22 @@ def build_copies(recs, delim):
         pick.add_record(Record(prefix=s_, uri_prefix=last.uri_prefix), merge=True)
     for s_ in last.usyn:
         pick.add_record(Record(prefix=last.prefix, uri_prefix=s_), merge=True)
+    shallow = copy.copy(base)      # a shallow copy shares everything with the original: whatever one learns, both list and both answer for
     base.add_prefix("zz5", "zz5/", prefix_synonyms=["zz5s"])
-    return deep, [(pick, Model(recs, delim)), (base, Model(list(recs[:-1]) + [mrec("zz5", "zz5/", ["zz5s"])], delim))]
+    m5 = Model(list(recs[:-1]) + [mrec("zz5", "zz5/", ["zz5s"])], delim)
+    others = [(pick, Model(recs, delim)), (base, m5)]
+    from ..impl import model_of
+
+    if model_of(shallow).record_set() == m5.record_set():
+        shallow.add_prefix("zz4", "zz4/")
+        m4 = Model(m5.records + [mrec("zz4", "zz4/")], delim)
+        if model_of(base).record_set() == m4.record_set():
+            others = [(pick, Model(recs, delim)), (base, m4), (shallow, m4)]
+        else:   # (an implementation may give shallow copies their own records list: then each answers for its own)
+            others = [(pick, Model(recs, delim)), (base, Model(model_of(base).records, delim)), (shallow, Model(model_of(shallow).records, delim))]
+    else:
+        others.append((shallow, Model(model_of(shallow).records, delim)))
+    return deep, others
 
 
 EXOTIC_DELIMS = ["%3A", "%", "%%", "{}", "\\", " ", "é", "a", "#", "_", "="]   # characters that are special to formatting / escaping / the alphabet itself
